@@ -232,7 +232,23 @@ func (f *fmt) fmtBx(q []byte, digits string)
   modifies f, f.buf
   ensures inv(f.buf) && BK(f.buf) && FK(f)
 
+-- which quoting function renders %q: Go syntax (strconv.AppendQuote), ASCII only with the '+' flag
+-- (AppendQuoteToASCII), or a raw string with '#' where possible; 0 = none of them was called
+ghostvar gquote int
+ghostvar gqplus bool
+assume func strconv.AppendQuote(dst []byte, s string) (r []byte)
+  modifies gquote, alloc
+  ensures gquote == 1
+
+assume func strconv.AppendQuoteToASCII(dst []byte, s string) (r []byte)
+  modifies gquote, alloc
+  ensures gquote == 2
+
 func (f *fmt) fmtQ(s string)
+  ghost gquote = 0 at entry
+  ghost gqplus = f.plus at entry
+  ghost gquote = 9 before "f.padString(\"`\" + s + \"`\")"
+  ensures [C05,C14] gquote == 9 || gquote == (gqplus ? 2 : 1)
   requires f.buf != nil && inv(f.buf) && f.buf.mode != SafeRaw && WP(f)
   requires [C02] S1(f.buf, 2)
   requires [C06] S2(f.buf)
@@ -240,7 +256,7 @@ func (f *fmt) fmtQ(s string)
   class 2 before "f.padString(\"`\" + s + \"`\")"
   class 2 before "f.pad(strconv.AppendQuoteToASCII(buf, s))"
   class 2 before "f.pad(strconv.AppendQuote(buf, s))"
-  modifies f, f.buf
+  modifies f, f.buf, gquote, gqplus, alloc
   ensures inv(f.buf) && BK(f.buf) && FK(f)
 
 
